@@ -1292,6 +1292,18 @@ func eqTerm(a, b string) string {
 }
 
 // addOne returns the term of x+1 in the normal form used by compute.
+// subOne: the term one less than x = base+k (k >= 1).
+func subOne(x string) string {
+	if m := addK.FindStringSubmatch(x); m != nil {
+		p, _ := strconv.ParseInt(m[2], 10, 64)
+		if p > 1 {
+			return fmt.Sprintf("%s+%d", m[1], p-1)
+		}
+		return m[1]
+	}
+	return x + "-1"
+}
+
 func addOne(x string) string {
 	if m := addK.FindStringSubmatch(x); m != nil {
 		p, _ := strconv.ParseInt(m[2], 10, 64)
